@@ -428,6 +428,8 @@ def plan(ctx: Ctx, n: int) -> List[dict]:
     for i, f in enumerate(forced):
         if f["system"] not in (None, "triclinic") and i % 3 == 0: f["redundant"] = "noisy"
         if i % 4 == 1: f["static_mesh"] = "shifted"
+        # every fifth: the rows of the static table (and of its lattice block) are not listed by decreasing volume
+        if i % 5 == 2: f["static_rows"] = ["shuffled", "increasing"][(i // 5) % 2]
     out = forced[:n]
     while len(out) < n:
         out.append({})
